@@ -113,6 +113,12 @@ static uint64_t sparse_decimal(vh_rng_t * rng) {
 static uint64_t biased64(vh_rng_t * rng) {
     uint64_t r = vh_rand(rng);
     if (vh_below(rng, 5) == 0) return sparse_decimal(rng);
+    if (vh_below(rng, 6) == 0) { /* round in decimal plus round in binary: d*10^e + c*2^k (remainders that are multiples of 2^32, 2^16, ...) */
+        uint64_t p10 = 1, v; int e = (int) vh_below(rng, 20); while (e--) p10 *= 10;
+        v = (1 + vh_below(rng, 18)) * p10 + ((uint64_t) (1 + vh_below(rng, 9)) << (8 * (1 + vh_below(rng, 7))));
+        if (vh_chance(rng, 1, 4)) v += (uint64_t) (1 + vh_below(rng, 9)) << 32;
+        return vh_chance(rng, 1, 4) ? (uint64_t) (0 - v) : v;
+    }
     switch (vh_below(rng, 10)) {
         case 0: return r;
         case 1: return r >> vh_below(rng, 64);
